@@ -5,6 +5,7 @@ Open Scope Z_scope.
 
 Record case := {
   c_hosts : list (string * string);          (* probe host, SNI name derived from it *)
+  c_xps : list (string * string);            (* cross probes: Host header, SNI of the connection it arrives on *)
   c_steps : list (op * step_obs)             (* ops with what the real gateway did *)
 }.
 
@@ -28,7 +29,12 @@ Definition host_obs_eqb (a b : host_obs) : bool :=
    && String.eqb (h_tc a) (h_tc b) && (h_cert a =? h_cert b) && (h_ca a =? h_ca b)
    && Bool.eqb (h_reqcert a) (h_reqcert b) && Bool.eqb (h_vok a) (h_vok b) && (h_vca a =? h_vca b))%bool.
 
-Fixpoint agree_steps (hosts : list (string * string)) (w : world) (l : list (op * step_obs)) : bool :=
+Definition model_x (g : gw) (hs : string * string) : string * Z :=
+  (match resolve_request g (fst hs) (snd hs) with Some i => i_cluster i | None => "" end,
+   request_code g (fst hs) (snd hs)).
+Definition x_eqb (a b : string * Z) : bool := (String.eqb (fst a) (fst b) && (snd a =? snd b))%bool.
+
+Fixpoint agree_steps (hosts xps : list (string * string)) (w : world) (l : list (op * step_obs)) : bool :=
   match l with
   | [] => true
   | (p, b) :: r =>
@@ -37,10 +43,12 @@ Fixpoint agree_steps (hosts : list (string * string)) (w : world) (l : list (op 
        && Bool.eqb (so_delivered out) (t_delivered b)
        && (res_code (so_res out) =? t_res b)
        && forall2b host_obs_eqb (map (model_host (w_gw w')) hosts) (t_hosts b)
-       && agree_steps hosts w' r)%bool
+       && forall2b x_eqb (map (model_x (w_gw w')) xps) (t_x b)
+       && agree_steps hosts xps w' r)%bool
   end.
 
-(* clause layout: agree, resolves_iff, same_tenant, no_capture, deleted_stop, tls_of_owner, host_norm, alive *)
+(* clause layout: agree, resolves_iff, same_tenant, no_capture, deleted_stop, tls_of_owner, host_norm, alive,
+   request_by_host *)
 Definition eval (c : case) : list bool :=
-  agree_steps (c_hosts c) empty_world (c_steps c)
-  :: hist_ok (c_hosts c) (sinit (List.length (c_hosts c))) (c_steps c).
+  agree_steps (c_hosts c) (c_xps c) empty_world (c_steps c)
+  :: hist_ok (c_hosts c) (c_xps c) (sinit (List.length (c_hosts c))) (c_steps c).
